@@ -100,6 +100,10 @@ type Agent struct {
 	// goes to failed
 	failedTimeout time.Duration
 
+	// Incremented every time the agent enters ConnectionStateChecking, so the
+	// connectivity check loop restarts its checking deadline on every entry.
+	checkingEpoch uint64
+
 	// How often should we send keepalive packets?
 	// 0 means never
 	keepaliveInterval time.Duration
@@ -683,6 +687,7 @@ func (a *Agent) startConnectivityChecks(isControlling bool, remoteUfrag, remoteP
 
 func (a *Agent) connectivityChecks() { //nolint:cyclop
 	lastConnectionState := ConnectionState(0)
+	lastCheckingEpoch := uint64(0)
 	checkingDuration := time.Time{}
 	checkingTimeout := a.initialCheckingTimeout()
 
@@ -690,6 +695,7 @@ func (a *Agent) connectivityChecks() { //nolint:cyclop
 		if err := a.loop.Run(a.loop, func(_ context.Context) {
 			defer func() {
 				lastConnectionState = a.connectionState
+				lastCheckingEpoch = a.checkingEpoch
 			}()
 
 			switch a.connectionState {
@@ -699,7 +705,7 @@ func (a *Agent) connectivityChecks() { //nolint:cyclop
 				return
 			case ConnectionStateChecking:
 				// We have just entered checking for the first time so update our checking timer
-				if lastConnectionState != a.connectionState {
+				if lastConnectionState != a.connectionState || lastCheckingEpoch != a.checkingEpoch {
 					checkingDuration = time.Now()
 				}
 
@@ -783,6 +789,10 @@ func (a *Agent) updateConnectionState(newState ConnectionState) {
 			a.pendingBindingRequests = make([]bindingRequest, 0)
 			a.setSelectedPair(nil)
 			a.deleteAllCandidates()
+		}
+
+		if newState == ConnectionStateChecking {
+			a.checkingEpoch++
 		}
 
 		a.log.Infof("Setting new connection state: %s", newState)
